@@ -64,7 +64,7 @@ def fidelity(depth: int, ft: int, kind: int, t: int, top: int, lower: int, nw: i
     A stack of 1-3 frames (files in/outside the app root / include / exclude prefixes, self absent / instance / None / falsy instance (empty container subclass, __bool__ False or raising)),
     top-frame locals from a graph template, frame_type single/all/none/unknown/absent, 0-2 watches, line or method
     tracepoint, the snapshot equals an independent reading.
-    PRE: 1 <= depth <= 3 and 0 <= ft <= 4 and 0 <= kind <= 1 and 0 <= t <= 9 and 0 <= top <= 10 and 0 <= lower <= 5 and 0 <= nw <= 2
+    PRE: 1 <= depth <= 3 and 0 <= ft <= 4 and 0 <= kind <= 1 and 0 <= t <= 10 and 0 <= top <= 10 and 0 <= lower <= 5 and 0 <= nw <= 2
     PRE: ts > 0 and line0 >= 1 and line1 >= 1
     PRE: kind == 0 or ft == 0
     PRE: depth > 1 or lower == 0
@@ -133,7 +133,7 @@ def fidelity(depth: int, ft: int, kind: int, t: int, top: int, lower: int, nw: i
             if len(sf.variables) != 0:
                 return "C02:variables-on-a-frame-the-frame_type-excludes"
         else:
-            r = reader.check_frame_fidelity(s, i, loc, 1024, 10, 5, require_all_locals=True)
+            r = reader.check_frame_fidelity(s, i, loc, 1024, 10, 5, require_all_locals=True, complete=True)
             if r:
                 return "C02:frame%d:%s" % (i, r)
     # ---- watches: evaluated against the top frame
@@ -212,17 +212,17 @@ MUTANTS = {"swap_file_short": _mut_swap_file_short, "all_means_single": _mut_all
 
 CONDITIONS = [
     dict(fn="fidelity",
-         cubes={"quick": ["depth == %d and ft == %d and kind == %d and top == %d and lower <= 3 and t in (0, 4, 8, 9) and nw != 1" % (d, f, k, tp)
+         cubes={"quick": ["depth == %d and ft == %d and kind == %d and top == %d and lower <= 3 and t in (0, 4, 8, 9, 10) and nw != 1" % (d, f, k, tp)
                           for d in (1, 2, 3) for (f, k) in ((0, 0), (1, 0), (2, 0), (3, 0), (4, 0), (0, 1)) for tp in range(6)] +
-                         ["depth == %d and ft == %d and kind == 0 and top == %d and lower %s and t in (0, 4, 8, 9) and nw != 1" % (d, f, tp, lo)
+                         ["depth == %d and ft == %d and kind == 0 and top == %d and lower %s and t in (0, 4, 8, 9, 10) and nw != 1" % (d, f, tp, lo)
                           for (d, f, lo) in ((1, 0, "== 0"), (2, 1, ">= 4")) for tp in (6, 7, 8, 9, 10)],
                 "thorough": ["depth == %d and ft == %d and kind == %d and t == %d and top == %d" % (d, f, k, t, tp) for d in (1, 2, 3)
-                             for (f, k) in ((0, 0), (1, 0), (2, 0), (3, 0), (4, 0), (0, 1)) for t in range(10) for tp in ((0, 1, 2, 3, 4, 5, 6, 7, 8, 9, 10) if (f, k) == (0, 0) else (0, 1, 4, 6, 9))]},
-         twins=["reach", "mutant:swap_file_short@depth == 1 and ft == 0 and kind == 0 and top == 1 and t in (0, 4, 8, 9) and nw != 1",
-                "mutant:all_means_single@depth == 2 and ft == 1 and kind == 0 and top == 1 and t in (0, 4, 8, 9) and nw != 1",
-                "mutant:class_of_type@depth == 1 and ft == 0 and kind == 0 and top == 1 and t in (0, 4, 8, 9) and nw != 1",
-                "mutant:size_as_str@depth == 1 and ft == 0 and kind == 0 and top == 1 and t in (0, 4, 8, 9) and nw != 1"],
+                             for (f, k) in ((0, 0), (1, 0), (2, 0), (3, 0), (4, 0), (0, 1)) for t in range(11) for tp in ((0, 1, 2, 3, 4, 5, 6, 7, 8, 9, 10) if (f, k) == (0, 0) else (0, 1, 4, 6, 9))]},
+         twins=["reach", "mutant:swap_file_short@depth == 1 and ft == 0 and kind == 0 and top == 1 and t in (0, 4, 8, 9, 10) and nw != 1",
+                "mutant:all_means_single@depth == 2 and ft == 1 and kind == 0 and top == 1 and t in (0, 4, 8, 9, 10) and nw != 1",
+                "mutant:class_of_type@depth == 1 and ft == 0 and kind == 0 and top == 1 and t in (0, 4, 8, 9, 10) and nw != 1",
+                "mutant:size_as_str@depth == 1 and ft == 0 and kind == 0 and top == 1 and t in (0, 4, 8, 9, 10) and nw != 1"],
          timeout={"quick": 240, "thorough": 900},
-         bounds="stack depth 1-3; 9 top-frame (file, self) variants and 6 lower-frame variants over 4 files (app root / excluded / included / outside); 10 graph "
-                "templates for the top frame's locals incl. an object presenting another __class__ and an int too large for str() (quick 4); 5 frame_type settings; 0-2 watches; line and method tracepoints"),
+         bounds="stack depth 1-3; 9 top-frame (file, self) variants and 6 lower-frame variants over 4 files (app root / excluded / included / outside); 11 graph "
+                "templates for the top frame's locals incl. an object presenting another __class__, an int too large for str(), tuple subclasses / structseq, a dict with unorderable keys, a range (quick 5); 5 frame_type settings; 0-2 watches; line and method tracepoints"),
 ]
